@@ -561,6 +561,7 @@ Proof.
   destruct (negb (hashes_to (cs_pblock s) h)) eqn:HT; [eapply Pn; exact Eq|].
   destruct (cs_pblock s) as [pb|] eqn:Epb; [|eapply Pn; exact Eq].
   destruct (negb (b_valid pb)) eqn:Vd; [eapply Pn; exact Eq|].
+  destruct (negb (match cs_pparts s with Some p => pt_complete p | None => false end)); [eapply Pn; exact Eq|].
   unfold seq, emit in Eq. rewrite Hh in Eq.
   destruct (update_to_next_height E s) as [s2 o2] eqn:Eu. injection Eq as <- <-.
   pose proof (update_to_next_height_lk D P SPC s s2 o2 F Hh Eu) as [A B].
